@@ -31,7 +31,7 @@ theorem C04_all_fail (ok : Nat → Bool) (accs : List Acc) :
 a match of length `k` is the start state advanced by exactly `k` characters, whatever the context
 read. -/
 theorem C04_not_consumed (cfg : Config σ τ ε) (ns : Nat → Option Nat)
-    (htargets : targetsOK cfg.dfa = true) (hns : DispatchOK cfg.dfa ns)
+    (htargets : targetsOK cfg.dfa = true) (hns : DispatchOK cfg.dfa cfg.inl ns)
     (s : Nat) (st : LState σ) (hlast : st.last = none) (hdone : st.done = false) (a : Nat) (st' : LState σ)
     (h : scanPlain cfg ns s st.iter st = .act a st') :
     ∃ k e n, Cand cfg s st.iter k a e ∧ st' = { advanceBy cfg.width st k with last := none, done := e, state := n } := by
